@@ -21,8 +21,9 @@ TRUSTED_BASE = [
 ASSUMPTIONS = ["registered functions are FilterFunction instances with declared arg_types/return_type"]
 TECHNIQUE = "Coq typing judgement (RFC 2.4.3) and range predicate evaluated on the generating AST, differential against compile() over random registries; parser-model correspondence; Coq theorem relating the model's compile-time checks to the judgement"
 LEVEL = "proof"
-LEVEL_TEXT = ("Theorem C05_checks (Props/C05.v): the parser model's compile-time checks (argument count/types, result use, comparands) accept exactly the expressions the RFC typing judgement accepts, "
-              "for every registry. Tied to the code by differential testing over random registries and boundary integers.")
+LEVEL_TEXT = ("Theorem C05_sound (Props/C05.v): for every text, registry and integer range, whatever the model's compile() returns is well-typed per the RFC judgement (Spec/Types.v) and in range - an invariant "
+              "through all parser functions; C05_check_args_partial / C05_singular_partial: the parser's shallow checks are the judgement's side conditions. Completeness (every valid query is accepted) is "
+              "NOT proved: decided by differential testing over random registries and boundary integers.")
 LEVEL_NOTE = "Trusted: Coq kernel; Spec/Types.v as a reading of the RFC; correspondence; extraction and driver."
 
 
